@@ -10,6 +10,8 @@ REALS = ("ValueType is modelled by exact reals (type R): every 'equals its defin
          "the size and growth of IEEE rounding error is NOT decided by this check")
 
 UNITS = {
+    "candle_methods": dict(tpl="candle_methods.rs.tpl", doc="methods::{TR, HeikinAshi, ADI} on an arbitrary dyn OHLCV"),
+    "ohlcv": dict(tpl="ohlcv.rs.tpl", doc="core::OHLCV provided methods, Candle accessors, Source"),
     "ema": dict(tpl="ema.rs.tpl", doc="methods::{EMA, DMA, TMA, DEMA, TEMA, RMA, WSMA, TSI}"),
     "compose_ma": dict(tpl="compose_ma.rs.tpl", doc="methods::{TRIMA, HMA} by composition of the SMA/WMA contracts"),
     "st_dev": dict(tpl="st_dev.rs.tpl", doc="methods::StDev"),
